@@ -212,7 +212,7 @@ class Check(PropertyCheck):
             "bodies/chunkings/option values (incl. k/m suffixes); size: parse_size on generated option strings. distinct = "
             "distinct case; non-trivial = body non-empty or option string non-trivial.")
     budget = {"quick": 4000, "thorough": 120000}
-    time_budget = {"quick": 35, "thorough": 600}
+    time_budget = {"quick": 25, "thorough": 600}
     fingerprints = ["mitmproxy.proxy.layers.http:HttpStream.check_body_size",
                     "mitmproxy.proxy.layers.http:HttpStream.state_wait_for_request_headers",
                     "mitmproxy.proxy.layers.http:HttpStream.state_consume_request_body",
